@@ -34,11 +34,13 @@ def env():
   e = dict(os.environ); e['PYTHONPATH'] = WT; e['JAX_PLATFORMS'] = 'cpu'; return e
 
 def main():
-  pid, k = sys.argv[1], sys.argv[2]
+  pid_src, k = sys.argv[1], sys.argv[2]
+  pid = pid_src[:3]
+  rnd = pid_src[3:]   # '' or 'r2' (second round of sub-agents)
   tier = 'quick'
   if '--tier' in sys.argv: tier = sys.argv[sys.argv.index('--tier') + 1]
-  src = f'/tmp/wtout/{pid}'
-  dst = f'/verif/seeded/{pid}-m{k}'
+  src = f'/tmp/wtout/{pid_src}'
+  dst = f'/verif/seeded/{pid}-{rnd}m{k}'
   if os.path.isdir(dst) and not os.path.exists(f'{src}/m{k}.diff'):
     diff, demo = f'{dst}/patch.diff', f'{dst}/demo.py'
     meta = json.load(open(f'{dst}/meta.json'))
